@@ -451,14 +451,25 @@ def _check_wrapper(res: Result, proj, w, kernel):
 
     def vec(v):
         return list(v.vals) if isinstance(v, Vec) else (list(v) if isinstance(v, list) else None)
-    for label, weights in (("default-weights", None), ("given-weights", Vec([2.0, 1.0, 0.5, 3.0, 1.0]))):
+    pen0 = pen
+    variants = [("default-weights", None, sch, pen0), ("given-weights", Vec([2.0, 1.0, 0.5, 3.0, 1.0]), sch, pen0)]
+    # other schemes afterwards in the same process: multiples of the first one, a standard one, the first one again
+    for k, factor in enumerate((2.0, 0.5)):
+        p2 = [[x * factor for x in pen0[0]], [x * factor for x in pen0[1]]]
+        variants.append((f"other-scheme-{k}", None, world.rt.new(SS, [[list(p2[0]), list(p2[1])]], {}), p2))
+    uni = [[0., 1., 1., 0., 1., 1.], [1., 1., 0., 1., 1., 0.]]
+    uni3 = [[3 * x for x in uni[0]], [3 * x for x in uni[1]]]
+    variants.append(("unifying", None, world.rt.new(SS, [[list(uni[0]), list(uni[1])]], {}), uni))
+    variants.append(("unifying-x3", None, world.rt.new(SS, [[list(uni3[0]), list(uni3[1])]], {}), uni3))
+    variants.append(("first-again", None, sch, pen0))
+    for label, weights, sch_, pen in variants:
         seen.clear()
         pos = world.call(ds, "get_positions")
         try:
             if weights is None:
-                world.rt.call_static(pba, w.name, pos, sch)
+                world.rt.call_static(pba, w.name, pos, sch_)
             else:
-                world.rt.call_static(pba, w.name, pos, sch, weights)
+                world.rt.call_static(pba, w.name, pos, sch_, weights)
         except U_ as exc:
             raise AnalysisError(f"{w.qualname}: unsupported construct at line {getattr(exc.node, 'lineno', '?')}: {exc}")
         good = len(seen) == 1
@@ -470,7 +481,7 @@ def _check_wrapper(res: Result, proj, w, kernel):
             detail = (f"kernel called with positions {rows(args[0]) if args else None}, scheme rows "
                       f"{rows(args[1]) if len(args) > 1 else None}, weights {vec(args[2]) if len(args) > 2 else None}, "
                       f"sizes {args[3:]}")
-        res.check(good, "T4", f"pairwise_cost_matrix:{'kernel-call' if weights is not None else 'default-weights'}", w.loc(),
+        res.check(good, "T4", f"pairwise_cost_matrix:{'kernel-call' if weights is not None else label}", w.loc(),
                   ok_detail="kernel gets (positions, [B, T] rows of the scheme, " +
                             ("the caller's weights" if weights is not None else "ones(nb_rankings)") + ", nb_elements, nb_rankings)",
                   bad_detail=detail if not good else "")
